@@ -497,6 +497,28 @@ pub fn all() -> Vec<Scenario> {
             }));
         }
     }
+    // every input cell of every permutation row of two real challenger circuits (+1, nothing else touched)
+    for (nm, f) in [("kb-d4-ext", crate::chsweep::sweep_ext as fn() -> Result<crate::chsweep::Swept, String>), ("kb-d1-base-in-quintic", crate::chsweep::sweep_base)] {
+        match catch_unwind(AssertUnwindSafe(f)) {
+            Ok(Ok(sw)) => {
+                for class in &sw.classes {
+                    let acc = sw.accepted.iter().find(|a| &a.0 == class);
+                    let id: &'static str = Box::leak(format!("challenger-table-cell-{nm}-{class}:rows={}", sw.rows).into_boxed_str());
+                    per_bit.push(Scenario {
+                        id,
+                        properties: &["C06"],
+                        what: "one input cell (or the index accumulator) of one Poseidon2 row of an honest challenger transcript circuit (observe 8, sample, observe 5, sample, sample(s)) is changed by +1, the rest of the traces is the honest run; one scenario per class of cell (row kind x rate / capacity x exposed on the bus or not), accepted if ANY cell of the class is accepted",
+                        honest: sw.honest.into(),
+                        forged: Some(match acc { Some(a) => format!("accepted for {} cell(s) of the class", a.1), None => "rejected for every cell of the class".into() }),
+                        accepted: acc.is_some(),
+                        detail: json!({"transcript": nm, "class": class, "rows": sw.rows, "cells_swept": sw.cells, "cells_rejected": sw.rejected, "example": acc.map(|a| a.2.clone())}),
+                    });
+                }
+            }
+            Ok(Err(e)) => per_bit.push(Scenario { id: Box::leak(format!("challenger-table-cell-{nm}").into_boxed_str()), properties: &["C06"], what: "", honest: format!("scenario construction failed: {e}"), forged: None, accepted: false, detail: json!({}) }),
+            Err(_) => per_bit.push(Scenario { id: Box::leak(format!("challenger-table-cell-{nm}").into_boxed_str()), properties: &["C06"], what: "", honest: "panic while constructing the scenario".into(), forged: None, accepted: false, detail: json!({}) }),
+        }
+    }
     // bits of a decomposition in a degree-4 extension circuit: non-zero higher coefficients, for every shape and two packings
     for shape in crate::extbits::SHAPES {
         for (pk, packing) in [("lanes1", TablePacking::new(1, 1)), ("default", TablePacking::default())] {
